@@ -568,7 +568,8 @@ Section Walker.
         let fv := map (fun si => elem_at (fst si) (snd si)) (combine cur idxs) in
         do r <- rec esc alias fv;
         if is_dead r then
-          do des' <- delete_elem vk vv des;
+          (* the element is removed with the keys validated against its own tuple, as it was looked up *)
+          do des' <- delete_elem ek ev des;
           Ok (des', items, vk)
         else
           match r with
